@@ -1,6 +1,6 @@
 """C15 Every simulator survives every opcode from every state, deterministically."""
 import os, re, random, struct
-from nvlib import (Worker, WorkerCrash, WorkerTimeout, Stats, Violation, shard_seed, load_known)
+from nvlib import (Worker, WorkerCrash, WorkerTimeout, Stats, Violation, shard_seed, load_known, repo_re)
 
 PROP = "C15"
 RULE = ("for each of the 15 simulated CPUs (19 cpu_list entries share them): leading opcode patterns (8-bit CPUs: all "
@@ -162,7 +162,7 @@ def crash_detail(w, errpos):
         with open(w.errpath, "rb") as f:
             f.seek(errpos)
             err = f.read().decode("latin-1")
-        m = re.search(r"(/repo/\S+:\d+)[^\n]*runtime error: ([^\n]*)", err) or \
+        m = re.search(r"(" + repo_re() + r"/\S+:\d+)[^\n]*runtime error: ([^\n]*)", err) or \
             re.search(r"ERROR: AddressSanitizer: (\S+)[^\n]*\n(?:[^\n]*\n){0,6}?\s*#\d+ [^\n]* in ([^\n]*simulate[^\n]*)", err) or \
             re.search(r"ERROR: AddressSanitizer: (\S+)[^\n]*", err)
         return (m.group(0) if m else "")[-300:]
